@@ -427,10 +427,14 @@ def fuzz_campaign(run):
     env = dict(os.environ)
     for k, (target, n, corpus) in enumerate(plan):
         out = os.path.join(run.scratch, "fuzz-%d-%s" % (k, target))
+        os.makedirs(out, exist_ok=True)
+        # (stderr goes to a file: a pipe that nobody reads while the other campaigns are awaited would block the child once it is full)
         procs.append((k, target, n, corpus, out, subprocess.Popen([sys.executable, "-m", "vlib.fuzz_c10", target, str(n), str(run.seed * 1000 + k), out, known_path, corpus],
-                                                                  cwd=runner.HERE, env=env, stdout=subprocess.DEVNULL, stderr=subprocess.PIPE)))
+                                                                  cwd=runner.HERE, env=env, stdout=subprocess.DEVNULL, stderr=open(os.path.join(out, "stderr.txt"), "wb"))))
     for k, target, n, corpus, out, p in procs:
-        err = p.communicate()[1].decode(errors="replace")
+        p.wait()
+        with open(os.path.join(out, "stderr.txt"), "rb") as f:
+            err = f.read()[-2000:].decode(errors="replace")
         sp = os.path.join(out, "stats.json")
         stats = json.load(open(sp)) if os.path.exists(sp) else {}
         if not stats.get("final"):
